@@ -396,13 +396,292 @@ def rule_X(ctx):
     c11.rule_X(_Proxy(ctx))
 
 
+def rule_G(ctx):
+    """C04.G every sequence operation of the repository's Track class interpreted on all small tracks and argument values, against the
+    list model (observations are tagged; timestamps are instants with the usual order, duplicates included)"""
+    import itertools
+    from .. import absint, orders, npstub
+    fn = absint.funcs(ctx, 'tracklib.core.track', dict(npstub.stubs()))
+    fn['deepcopy'] = absint.deep_copy
+    T = absint.classref(ctx, TRACK, fn)
+    import math as _math
+    fn['log'] = _math.log
+
+    class Stamp(orders.PyStub):
+        isa = ('ObsTime',)
+
+        def __init__(self, t):
+            self.t = t
+            self.zone = 0
+
+        def toAbsTime(self):
+            return float(self.t)
+
+        def copy(self):
+            return Stamp(self.t)
+
+        def __eq__(self, o):
+            return isinstance(o, Stamp) and o.t == self.t
+
+        def __ne__(self, o):
+            return not self.__eq__(o)
+
+        def __lt__(self, o):
+            return self.t < o.t
+
+        def __le__(self, o):
+            return self.t <= o.t
+
+        def __gt__(self, o):
+            return self.t > o.t
+
+        def __ge__(self, o):
+            return self.t >= o.t
+
+        def __sub__(self, o):
+            return float(self.t - o.t)
+
+        def __hash__(self):
+            return hash(self.t)
+
+        def __repr__(self):
+            return 't=%s' % self.t
+    Stamp.__name__ = Stamp.__qualname__ = 'ObsTime'
+    fn['ObsTime'] = Stamp
+    fn['__globals__']['ObsTime'] = Stamp
+
+    class Pos(orders.PyStub):
+        isa = ('ENUCoords',)
+
+        def __init__(self, k):
+            self.k = k
+
+        def copy(self):
+            return Pos(self.k)
+
+        def __eq__(self, o):
+            return isinstance(o, Pos) and o.k == self.k
+
+        def __hash__(self):
+            return hash(self.k)
+
+    class O(orders.PyStub):
+        isa = ('Obs',)
+
+        def __init__(self, k, t):
+            self.k = k
+            self.position = Pos(k)
+            self.timestamp = Stamp(t)
+            self.features = [('f', k)]
+
+        def copy(self):
+            o = O(self.k, self.timestamp.t)
+            o.features = list(self.features)
+            return o
+
+    def mk(times, first=0):
+        t = T([O(first + k, tm) for k, tm in enumerate(times)], 'u', 't')
+        dk = [k for k in t.fields if 'analyticalFeaturesDico' in k]
+        if len(dk) != 1:
+            raise shape_error('Track: name -> column map attribute not found')
+        t.fields[dk[0]] = {'f': 0}
+        return t
+
+    def snap(t):
+        if not isinstance(t, orders.Obj) or '_Track__POINTS' not in t.fields:
+            return None
+        return [(o.k, o.timestamp.t, o.position.k, tuple(o.features)) for o in t.fields['_Track__POINTS']]
+
+    def tags(t):
+        s_ = snap(t)
+        return None if s_ is None else [x[0] for x in s_]
+
+    found = {}
+    counts = {}
+
+    def fail(op, key, desc, wit):
+        found.setdefault((op, key), (desc, wit))
+
+    def attempt(op, fq, thunk):
+        counts[op] = counts.get(op, 0) + 1
+        try:
+            return True, thunk()
+        except orders.Unsupported as ex:
+            raise shape_error('Track.%s not interpretable: %s' % (fq, ex), ctx.prog.func(TRACK + '.' + fq).loc())
+        except (IndexError, KeyError, TypeError, AttributeError, ValueError, ZeroDivisionError, orders.Raised, RecursionError) as ex:
+            return False, '%s: %s' % (type(ex).__name__, str(ex)[:160])
+
+    def check_result(op, fq, src_times, args_txt, src, before, res, want, carries=True):
+        """res: resulting Track record; want: expected tag list"""
+        case = {'track (tag, time)': [(b[0], b[1]) for b in before], 'operation': args_txt}
+        if snap(src) != before:
+            fail(op, 'source', 'the source track is left as it was', dict(case, **{'source afterwards': [(x[0], x[1]) for x in (snap(src) or [])]}))
+        got = snap(res)
+        if got is None or [g[0] for g in got] != want:
+            fail(op, 'selection', 'the result holds exactly the designated observations, in the original order',
+                 dict(case, result=None if got is None else [g[0] for g in got], expected=want))
+            return
+        by = {b[0]: b for b in before}
+        for g in got:
+            if g[0] in by and (g[1], g[2], g[3]) != by[g[0]][1:]:
+                fail(op, 'own-values', 'each observation of the result carries its own timestamp, position and feature values',
+                     dict(case, observation=g[0], carried=[g[1], g[2], list(g[3])], own=list(by[g[0]][1:3]) + [list(by[g[0]][3])]))
+        if carries and want:
+            names = res.call('getListAnalyticalFeatures')
+            if names != ['f']:
+                fail(op, 'table', 'the feature table is carried over to the result', dict(case, **{'features listed by the result': names}))
+            else:
+                dk = [k for k in res.fields if 'analyticalFeaturesDico' in k][0]
+                sk = [k for k in src.fields if 'analyticalFeaturesDico' in k][0]
+                if res.fields[dk] is src.fields[sk]:
+                    fail(op, 'table-alias', 'the result has its own copy of the feature table (a later feature on one track must not appear on the other)', case)
+
+    TIMES = {0: [[]], 1: [[5]], 2: [[5, 7], [5, 5], [7, 5]], 3: [[5, 7, 9], [5, 5, 9], [9, 7, 5], [5, 9, 7]], 4: [[1, 3, 5, 7], [1, 3, 3, 7]], 5: [[1, 3, 5, 7, 9]]}
+    for n, tlists in sorted(TIMES.items()):
+        for times in tlists:
+            # head / tail trimming, decimation
+            for k in range(0, n + 1):
+                for op, fq, sym, want in (('t > n', '__gt__', '>', list(range(n))[k:]), ('t < n', '__lt__', '<', list(range(n))[:n - k])):
+                    src = mk(times)
+                    before = snap(src)
+                    ok, res = attempt(op, fq, lambda: src.call(fq, k))
+                    if not ok:
+                        fail(op, 'fails', 'the operation does not fail', {'track times': times, 'operation': 't %s %d' % (sym, k), 'exception': res})
+                        continue
+                    check_result(op, fq, times, 't %s %d' % (sym, k), src, before, res, want)
+            for step in range(1, n + 2):
+                src = mk(times)
+                before = snap(src)
+                ok, res = attempt('t % n', '__mod__', lambda: src.call('__mod__', step))
+                if not ok:
+                    fail('t % n', 'fails', 'the operation does not fail', {'track times': times, 'operation': 't %% %d' % step, 'exception': res})
+                    continue
+                check_result('t % n', '__mod__', times, 't %% %d' % step, src, before, res, list(range(n))[::step])
+            for plen in (1, 2, 3):
+                for pat in itertools.product([True, False], repeat=plen):
+                    src = mk(times)
+                    before = snap(src)
+                    ok, res = attempt('t % pattern', '__mod__', lambda: src.call('__mod__', list(pat)))
+                    if not ok:
+                        fail('t % pattern', 'fails', 'the operation does not fail', {'track times': times, 'operation': 't %% %r' % (list(pat),), 'exception': res})
+                        continue
+                    # the pattern form builds a bare track (no identifiers): its feature table is checked only where the code carries one today
+                    check_result('t % pattern', '__mod__', times, 't %% %r' % (list(pat),), src, before, res, [i for i in range(n) if pat[i % plen]], carries=False)
+            # index extraction (inclusive), including the empty range b == a - 1
+            for a_ in range(0, n + 1):
+                for b_ in range(a_ - 1, n):
+                    if a_ == n and b_ != a_ - 1:
+                        continue
+                    src = mk(times)
+                    before = snap(src)
+                    ok, res = attempt('extract', 'extract', lambda: src.call('extract', a_, b_))
+                    if not ok:
+                        fail('extract', 'fails', 'the operation does not fail', {'track times': times, 'operation': 'extract(%d, %d)' % (a_, b_), 'exception': res})
+                        continue
+                    check_result('extract', 'extract', times, 'extract(%d, %d)' % (a_, b_), src, before, res, list(range(a_, b_ + 1)))
+            # time span (closed, bounds in either order), instants before / on / between / after the fixes
+            inst = sorted(set([tm for tm in times] + [tm + 1 for tm in times] + [0, 20]))
+            for lo in inst:
+                for hi in inst:
+                    src = mk(times)
+                    before = snap(src)
+                    ok, res = attempt('extractSpanTime', 'extractSpanTime', lambda: src.call('extractSpanTime', Stamp(lo), Stamp(hi)))
+                    if not ok:
+                        fail('extractSpanTime', 'fails', 'the operation does not fail', {'track times': times, 'operation': 'extractSpanTime(%s, %s)' % (lo, hi), 'exception': res})
+                        continue
+                    a_, b_ = min(lo, hi), max(lo, hi)
+                    check_result('extractSpanTime', 'extractSpanTime', times, 'extractSpanTime(%s, %s)' % (lo, hi), src, before, res,
+                                 [i for i, tm in enumerate(times) if a_ <= tm <= b_])
+            # removal by index list, indices given in any order
+            for r in range(1, min(n, 3) + 1):
+                for idx in itertools.permutations(range(n), r):
+                    src = mk(times)
+                    before = snap(src)
+                    arg = list(idx)
+                    ok, res = attempt('removeObsList', 'removeObsList', lambda: src.call('removeObsList', arg))
+                    if not ok:
+                        fail('removeObsList', 'fails', 'the operation does not fail', {'track times': times, 'operation': 'removeObsList(%r)' % (list(idx),), 'exception': res})
+                        continue
+                    left = tags(src)
+                    want = [i for i in range(n) if i not in idx]
+                    if left != want:
+                        fail('removeObsList', 'selection', 'removal by index list leaves exactly the other observations, in order',
+                             {'track times': times, 'operation': 'removeObsList(%r)' % (list(idx),), 'observations left': left, 'expected': want})
+            # sort
+            src = mk(times)
+            before = snap(src)
+            ok, res = attempt('sort', 'sort', lambda: src.call('sort'))
+            if not ok:
+                fail('sort', 'fails', 'the operation does not fail', {'track times': times, 'exception': res})
+            else:
+                after = snap(src)
+                if sorted(after) != sorted(before) or any(after[i][1] > after[i + 1][1] for i in range(len(after) - 1)):
+                    fail('sort', 'order', 'sorting yields the same observations, each with its own values, in non-decreasing time order',
+                         {'track (tag, time)': [(b[0], b[1]) for b in before], 'after sort': [(b[0], b[1]) for b in after]})
+            # concatenation with a second track
+            for m_ in (0, 1, 2):
+                src = mk(times)
+                other = mk([30 + j for j in range(m_)], first=100)
+                before, bo = snap(src), snap(other)
+                ok, res = attempt('t1 + t2', '__add__', lambda: src.call('__add__', other))
+                if not ok:
+                    fail('t1 + t2', 'fails', 'the operation does not fail', {'track times': times, 'second track size': m_, 'exception': res})
+                    continue
+                check_result('t1 + t2', '__add__', times, 't + (track of %d)' % m_, src, before + [], res, list(range(n)) + [100 + j for j in range(m_)], carries=(n > 0 and m_ > 0))
+                if snap(other) != bo:
+                    fail('t1 + t2', 'source', 'the source track is left as it was', {'second operand afterwards': tags(other)})
+            # an empty selection joined with another track: the observations of the other track keep their feature table
+            if n >= 1:
+                for how, sel in (('t > size', lambda s_: s_.call('__gt__', n)), ('t < size', lambda s_: s_.call('__lt__', n)), ('extract(1, 0)', lambda s_: s_.call('extract', 1, 0) if n > 1 else s_.call('extract', 0, -1))):
+                    src = mk(times)
+                    other = mk([30, 31], first=100)
+                    ok, res = attempt('t1 + t2', '__add__', lambda: sel(src).call('__add__', other))
+                    if not ok:
+                        fail('t1 + t2', 'fails', 'the operation does not fail', {'track times': times, 'operation': '(%s) + (track of 2)' % how, 'exception': res})
+                        continue
+                    got = snap(res)
+                    names = res.call('getListAnalyticalFeatures') if got is not None else None
+                    if got is None or [g[0] for g in got] != [100, 101] or names != ['f']:
+                        fail('t1 + t2', 'empty-left', 'an empty selection of a track with features, joined with a track listing the same features, gives that track\'s observations with the feature table',
+                             {'track times': times, 'operation': '(%s) + (track of 2 with feature f)' % how, 'result': None if got is None else [g[0] for g in got], 'features listed by the result': names})
+    # chronological insertion into sorted tracks of every size 0..9 (powers of two and their neighbours), duplicates included
+    for n in range(0, 10):
+        for dup in (False, True):
+            times = [10 * (k + 1) for k in range(n)]
+            if dup and n >= 2:
+                times[n // 2] = times[n // 2 - 1]
+            elif dup:
+                continue
+            inst = sorted(set([5] + times + [tm + 5 for tm in times]))
+            for x in inst:
+                src = mk(times)
+                new = O(500, x)
+                ok, res = attempt('insertObsInChronoOrder', 'insertObsInChronoOrder', lambda: src.call('insertObsInChronoOrder', new))
+                if not ok:
+                    fail('insertObsInChronoOrder', 'fails', 'the operation does not fail', {'sorted track times': times, 'instant inserted': x, 'exception': res})
+                    continue
+                after = snap(src)
+                tg = [a[0] for a in after]
+                old = [g for g in tg if g != 500]
+                if tg.count(500) != 1 or old != list(range(n)) or any(after[i][1] > after[i + 1][1] for i in range(len(after) - 1)):
+                    fail('insertObsInChronoOrder', 'order', 'inserting an observation without an index into a time-sorted track leaves it sorted, with every former observation kept in place order',
+                         {'sorted track times': times, 'instant inserted': x, 'track afterwards (tag, time)': [(a[0], a[1]) for a in after]})
+    fT = ctx.prog.cls(TRACK)
+    anchors = {'t > n': '__gt__', 't < n': '__lt__', 't % n': '__mod__', 't % pattern': '__mod__', 'extract': 'extract', 'extractSpanTime': 'extractSpanTime',
+               'removeObsList': 'removeObsList', 'sort': 'sort', 't1 + t2': '__add__', 'insertObsInChronoOrder': 'insertObsInChronoOrder'}
+    for (op, key), (desc, wit) in sorted(found.items()):
+        f = ctx.prog.func(TRACK + '.' + anchors[op])
+        ctx.violation('C04.G', f, '%s: %s' % (op, desc), wit, node=f.node, key='%s:%s' % (op, key))
+    for op, fq in anchors.items():
+        if not any(o_ == op for o_, _ in found):
+            f = ctx.prog.func(TRACK + '.' + fq)
+            ctx.ok('C04.G', f, '%s agrees with the list model on %d interpreted cases (source untouched, own values, feature table carried as a copy)' % (op, counts.get(op, 0)), node=f.node)
+    ctx.extra['C04.G cases'] = sum(counts.values())
+
+
 RULES = [
+    ('C04.G', rule_G, 'quick'),
     ('C04.X', rule_X, 'quick'),
-    ('C04.S', rule_S, 'quick'),
-    ('C04.T', rule_T, 'quick'),
     ('C04.F', rule_F, 'quick'),
-    ('C04.R', rule_R, 'quick'),
-    ('C04.P', rule_P, 'quick'),
-    ('C04.I', rule_I, 'quick'),
 ]
-MIN_OBLIGATIONS = 25
+MIN_OBLIGATIONS = 12
